@@ -20,6 +20,10 @@ def plan(tier, seed):
                  alpha="ab", nmax=4, lexdis=(False, True)),
             dict(space="k4only", win=(seed, 40), lexmaps=("M0",), wss=("",),
                  alpha="ab", nmax=4, lexdis=(False, True)),
+            # the same through a pass-through custom_token_recognition
+            # callable (the scanner is then reached by another path)
+            dict(space="k3", win=(seed, 4), lexmaps=("M0", "M0p"), wss=("",),
+                 alpha="ab", nmax=4, lexdis=(False, True), ctr=True),
         ]
     return [
         dict(space="k3", lexmaps=("M0", "M3", "M0p"), wss=("", " "),
@@ -30,6 +34,8 @@ def plan(tier, seed):
              lexdis=(False, True)),
         dict(space="k4only", lexmaps=("M3",), wss=("",), alpha="ab", nmax=4,
              lexdis=(False, True)),
+        dict(space="k3", lexmaps=("M0", "M0p"), wss=("",), alpha="ab", nmax=4,
+             lexdis=(False, True), ctr=True),
     ]
 
 
@@ -147,8 +153,14 @@ def check_glr(ctx, an, s, p, o):
         ctx.deviation(fid, s, what, detail)
 
 
+def passthrough(context, get_tokens):
+    return get_tokens()
+
+
 def run_unit(u):
     opts = {"consume_input": False, "lexical_disambiguation": u["ld"]}
+    if u.get("ctr"):
+        opts["custom_token_recognition"] = passthrough
     r = glrsweep.sweep(u, PROP, KNOWN, check_glr, acyclic_only=True,
                        parser_opts=opts, prefixes=True)
     lr = lr_part(u)
@@ -184,7 +196,9 @@ def lr_part(u):
             try:
                 g = grammar_from_string(text)
                 p = build("lr", g, mon, tag=(gi, tk, "lr"), tables=tk,
-                          ws=u["ws"], consume_input=False, build_tree=True)
+                          ws=u["ws"], consume_input=False, build_tree=True,
+                          **({"custom_token_recognition": passthrough}
+                             if u.get("ctr") else {}))
             except (Exception, BudgetExceeded):   # noqa: BLE001
                 continue     # conflicts: no LR parser for this grammar
             stats["lr_parsers"] += 1
